@@ -24,7 +24,7 @@
 using namespace verif;
 
 namespace {
-enum { CFG, SINK, MODLVL, LOG, YIELD, NOPS };
+enum { CFG, SINK, MODLVL, LOG, YIELD, SPLIT, NOPS };
 const int kMaxThreads = 6, kMaxSinks = 3;
 const int64_t kMaxLens[] = {0, 1, 10, 2047, 2048, 2049, 5000, 100 << 10};
 const int64_t kFileMax[] = {1, 50, 300, 4096, 1 << 20};
@@ -36,7 +36,7 @@ const char kAlphabet[] = "ABCDEFGHIJKLMNOPQRSTUVWXYZabcdefghijklmnopqrstuvwxyz01
 struct Rec {           // one record as seen by a sink
   int t = -1; long seq = -1; int level_code = 0; long tid = 0; std::string module, file, text; bool trunc = false;
 };
-struct Call { int t; long seq; int level; int module; size_t len; bool puts; };
+struct Call { int t; long seq; int level; int module; size_t len; bool puts; int round; };
 
 std::string text_of(int t, long seq, size_t len) {
   std::string s(len, 'x');
@@ -120,6 +120,7 @@ std::string run(const Scenario &s, CaseInfo &info) {
   std::vector<SinkSpec> specs;
   std::vector<std::pair<int, Call>> script[kMaxThreads];   // (0 log | 1 yield us)
   long seqs[kMaxThreads] = {0};
+  int cur_round = 0; unsigned early_mask = 0; bool early_reverse = false;   // SPLIT: sinks in early_mask are disabled between round 0 and round 1
   for (auto &op : s.ops) {
     switch (op.code) {
       case CFG: maxlen = (size_t)kMaxLens[op.in(0, 0, 7)]; nthreads = (int)op.in(1, 1, kMaxThreads); break;
@@ -136,8 +137,9 @@ std::string run(const Scenario &s, CaseInfo &info) {
         switch (op.in(3, 0, 9)) { case 0: L = 0; break; case 1: L = 1; break; case 2: L = maxlen ? maxlen - 1 : 0; break; case 3: L = maxlen; break; case 4: L = maxlen + 1; break;
           case 5: L = 2047 + (size_t)(k % 4); break; case 6: L = 3 * maxlen + 1; break; default: L = (size_t)k % 200; }
         if (L > 400000) L = 400000;
-        c.len = L; c.puts = op.in(5, 0, 1) == 1; script[t].push_back({0, c}); break; }
-      case YIELD: { Call c{}; c.len = (size_t)op.in(1, 0, 500); script[op.in(0, 0, kMaxThreads - 1)].push_back({1, c}); break; }
+        c.len = L; c.puts = op.in(5, 0, 1) == 1; c.round = cur_round; script[t].push_back({0, c}); break; }
+      case SPLIT: if (cur_round == 0) { cur_round = 1; early_mask = (unsigned)op.in(0, 0, 7); early_reverse = op.in(1, 0, 1) == 1; } break;
+      case YIELD: { Call c{}; c.len = (size_t)op.in(1, 0, 500); c.round = cur_round; script[op.in(0, 0, kMaxThreads - 1)].push_back({1, c}); break; }
       default: break;
     }
   }
@@ -184,7 +186,7 @@ std::string run(const Scenario &s, CaseInfo &info) {
 
   // ---- run the logging threads
   long tids[kMaxThreads] = {0};
-  std::atomic<int> go{0};
+  std::atomic<int> go{0}, at_barrier{0}; std::atomic<bool> release{false};
   std::vector<std::thread> th;
   for (int t = 0; t < nthreads; ++t) {
     th.emplace_back([&, t] {
@@ -193,15 +195,28 @@ std::string run(const Scenario &s, CaseInfo &info) {
       static const char *const kFn[kMaxThreads] = {"t0", "t1", "t2", "t3", "t4", "t5"};
       const char *fn = kFn[t];
       go.fetch_add(1); while (go.load() < nthreads) std::this_thread::yield();
+      bool passed_barrier = false;
+      auto barrier = [&] { if (passed_barrier) return; passed_barrier = true; at_barrier.fetch_add(1); while (!release.load()) std::this_thread::yield(); };
       for (auto &st : script[t]) {
+        if (st.second.round == 1) barrier();
         if (st.first == 1) { if (st.second.len < 50) std::this_thread::yield(); else std::this_thread::sleep_for(std::chrono::microseconds(st.second.len)); continue; }
         const Call &c = st.second;
         std::string txt = text_of(t, c.seq, c.len);
         if (c.puts) LogPrintfFunc(kModules[c.module], fn, "/some/dir/h.cpp", (int)c.seq, c.level, 0, txt.c_str());
         else LogPrintfFunc(kModules[c.module], fn, "/some/dir/h.cpp", (int)c.seq, c.level, 1, "%s", txt.c_str());
       }
+      barrier();
     });
   }
+  // between the rounds: disable the "early" sinks (in creation or reverse order) while the others stay enabled
+  while (at_barrier.load() < nthreads) std::this_thread::yield();
+  std::vector<bool> early(specs.size(), false);
+  if (cur_round == 1) {
+    std::vector<size_t> order; for (size_t i = 0; i < specs.size(); ++i) if (early_mask >> i & 1) order.push_back(i);
+    if (early_reverse) std::reverse(order.begin(), order.end());
+    for (size_t i : order) { sinks[i]->disable(); early[i] = true; }
+  }
+  release = true;
   for (auto &t : th) t.join();
   for (auto &sk : sinks) sk->disable();      // everything must be delivered / on disk when this returns
   if (saved_stdout >= 0) { fflush(stdout); dup2(saved_stdout, 1); close(saved_stdout); }
@@ -240,7 +255,7 @@ std::string run(const Scenario &s, CaseInfo &info) {
     // expected records of this sink
     auto passes = [&](const Call &c) { int th_ = sp.modlevel[c.module] >= 0 ? sp.modlevel[c.module] : sp.deflevel; return c.level <= th_; };
     std::map<std::pair<int, long>, const Call *> expect;
-    for (int t = 0; t < nthreads; ++t) for (auto &st : script[t]) if (st.first == 0 && passes(st.second)) expect[{t, st.second.seq}] = &st.second;
+    for (int t = 0; t < nthreads; ++t) for (auto &st : script[t]) if (st.first == 0 && passes(st.second) && !(early[i] && st.second.round == 1)) expect[{t, st.second.seq}] = &st.second;
     std::map<std::pair<int, long>, int> seen; long last_seq[kMaxThreads]; for (auto &x : last_seq) x = 0;
     for (auto &r : got) {
       auto it = expect.find({r.t, r.seq});
@@ -276,6 +291,7 @@ std::string run(const Scenario &s, CaseInfo &info) {
   info.cls_if(any_trunc, "truncated_record");
   info.cls_if(any_roll, "file_rollover");
   info.cls_if(saved_stdout >= 0, "in_tree_stdout_sink");
+  { bool some_early = false, some_late = false; for (size_t i = 0; i < specs.size(); ++i) (early[i] ? some_early : some_late) = true; info.cls_if(cur_round == 1 && some_early && some_late, "sink_disabled_while_others_stay_enabled"); }
   { bool redef = false; for (auto &sp : specs) if (sp.redefinitions) redef = true; info.cls_if(redef, "module_level_reconfigured"); }
   info.nontrivial = (nthreads >= 2 && has_async && cross_boundary) || any_trunc || any_roll;
   return "";
@@ -283,8 +299,8 @@ std::string run(const Scenario &s, CaseInfo &info) {
 
 SubDef def = [] {
   SubDef d; d.name = "logging";
-  d.op_names = {"cfg", "sink", "modlvl", "log", "yield"};
-  d.op_arity = {2, 7, 3, 6, 2};
+  d.op_names = {"cfg", "sink", "modlvl", "log", "yield", "split"};
+  d.op_arity = {2, 7, 3, 6, 2, 2};
   d.nt_rule = ">= 2 threads logging concurrently to an async sink with a record crossing a pipe-buffer boundary, or a truncated record, or a file roll-over inside the run";
   d.run = run;
 #ifndef VERIF_ENGINE_FUZZ
@@ -297,6 +313,7 @@ SubDef def = [] {
       {12, mkop(LOG, {th, range(0, 7), range(0, 3), range(0, 9), range(0, 3000), range(0, 1)})},
       {2, mkop(YIELD, {th, rc::gen::weightedOneOf<int64_t>({{3, range(0, 49)}, {1, range(50, 500)}})})},
       {2, mkop(MODLVL, {range(0, 2), range(0, 3), range(-1, 7)})},
+      {1, mkop(SPLIT, {range(0, 7), range(0, 1)})},
     });
     return rc::gen::apply([](std::vector<Op> h, std::vector<Op> p, std::vector<Op> b) {
       Scenario s; s.ops = std::move(h); for (auto &o : p) s.ops.push_back(o); for (auto &o : b) s.ops.push_back(o); return s; },
